@@ -56,7 +56,9 @@ type verdict struct {
 type jwtTok struct {
 	Alg    string `json:"alg"`
 	Signer string `json:"signer"`
-	Times  string `json:"times"`
+	Exp    string `json:"exp"`
+	Nbf    string `json:"nbf"`
+	Iat    string `json:"iat"`
 	Tamper string `json:"tamper"`
 	Hdr    string `json:"hdr"`
 }
@@ -427,24 +429,35 @@ func (e *accessEnv) token(t *jwtTok) string {
 	now := time.Now().Unix()
 	future, past := now+3600, now-3600
 	claims := map[string]interface{}{"sub": "verif", "role": "user"}
-	switch t.Times {
-	case "none":
-	case "exp-future":
+	// the time claims are independent components (specs/Mod/Access.tla: exp x nbf x iat)
+	switch t.Exp {
+	case "absent":
+	case "future":
 		claims["exp"] = future
-	case "exp-past":
+	case "past":
 		claims["exp"] = past
-	case "nbf-past":
+	default:
+		fatal("unknown exp class %q", t.Exp)
+	}
+	switch t.Nbf {
+	case "absent":
+	case "past":
 		claims["nbf"] = past
-	case "nbf-future":
+	case "future":
 		claims["nbf"] = future
-	case "exp-future-nbf-future":
-		claims["exp"], claims["nbf"] = future+3600, future
-	case "exp-future-nbf-past":
-		claims["exp"], claims["nbf"] = future, past
-	case "iat-future":
+	default:
+		fatal("unknown nbf class %q", t.Nbf)
+	}
+	switch t.Iat {
+	case "absent":
+	case "past":
+		claims["iat"] = past
+	case "soon":
+		claims["iat"] = now + 20 // a small clock skew
+	case "far":
 		claims["iat"] = future
 	default:
-		fatal("unknown time class %q", t.Times)
+		fatal("unknown iat class %q", t.Iat)
 	}
 	hb, _ := json.Marshal(map[string]string{"alg": t.Alg, "typ": "JWT"})
 	pb, _ := json.Marshal(claims)
@@ -902,8 +915,8 @@ func accessClass(in *accessIn) string {
 	case "basic":
 		return fmt.Sprintf("cover=%s/cred=%s", in.Cover, in.Cred)
 	case "jwt":
-		return fmt.Sprintf("cover=%s/keys=%s/alg=%s/signer=%s/times=%s/tamper=%s/hdr=%s",
-			in.Cover, in.Keys, in.Tok.Alg, in.Tok.Signer, in.Tok.Times, in.Tok.Tamper, in.Tok.Hdr)
+		return fmt.Sprintf("cover=%s/keys=%s/alg=%s/signer=%s/exp=%s/nbf=%s/iat=%s/tamper=%s/hdr=%s",
+			in.Cover, in.Keys, in.Tok.Alg, in.Tok.Signer, in.Tok.Exp, in.Tok.Nbf, in.Tok.Iat, in.Tok.Tamper, in.Tok.Hdr)
 	case "slink":
 		return fmt.Sprintf("cover=%s/rule=%s/cls=%s", in.Cover, in.Rule, in.Cls)
 	case "blockip":
